@@ -142,3 +142,11 @@ package putsvc
 //@ func (*distributedTarget).applyECRule
 //@   property C25
 //@   loop 1 iteration [every_part_is_scheduled] partScheduled(partIdx)
+
+// Under MaxReplicas the capacity that later rules can still contribute is summed from the
+// rule after the current position (saveObject$4 is the closure sumLimitsSinceRule).
+//@ callrule c25_remaining_capacity_excludes_current_rule in (*distributedTarget).saveObject
+//@   property C25
+//@   callee (*put.distributedTarget).saveObject$4, dynamic:freevar.sumLimitsSinceRule
+//@   pureeffect
+//@   requires [sum_starts_after_the_current_position] a0 == i + 1
